@@ -389,7 +389,9 @@ def check_fresh_processes(chk):
             chk.fail("run total", {"level": "fresh_process", "mode": mode}, (err or out)[-300:], {"clause": "raise", "level": "fresh_process"})
             return
         res[mode] = json.loads(out.strip().splitlines()[-1])
-    for what in ("smc_default_options", "preconditioning_flow"):
+    if "unrelated_work" in res["after"]:
+        raise core.HarnessError("c20 child: " + res["after"]["unrelated_work"])
+    for what in ("smc_default_options", "preconditioning_flow", "flowjax_default_precision"):
         a, b = res["alone"].get(what), res["after"].get(what)
         case = {"level": "fresh_process", "what": what, "alone": a, "after_an_unrelated_analysis_other_hash_seed": b}
         chk.count("fresh_process:" + what)
